@@ -79,6 +79,13 @@ theorem runSteps_length (mode : Index) (qs : List Desc) : ∀ (ops : List Op) (s
   | nil => intro st; simp [runSteps]
   | cons o rest ih => intro st; simp [runSteps, ih]
 
+theorem runSteps_descOk (mode : Index) (qs : List Desc) : ∀ (ops : List Op) (st : State),
+    (runSteps mode qs st ops).1.all (·.descOk) = true := by
+  intro ops
+  induction ops with
+  | nil => intro st; simp [runSteps]
+  | cons o rest ih => intro st; simp [runSteps, ih]
+
 theorem runSteps_lists (mode : Index) (qs : List Desc) : ∀ (ops : List Op) (st : State),
     (runSteps mode qs st ops).1.all (fun so => so.lists.length == qs.length) = true := by
   intro ops
@@ -511,11 +518,12 @@ theorem model_holds (i : Input) (hwf : wf i = true) : Holds i (run i) = true := 
     exact all_zip_map _ P _
   unfold Holds clauses
   simp only [Clauses.holds_cons, Clauses.holds_nil, Bool.and_true, Bool.and_eq_true]
-  refine ⟨hwf, ?shape, ?push, ?exact, ?iso, ?refused, ?big, ?round, ?pushed, ?annos, ?hostile, ?probe1, ?probe2, ?reopen, ?race, ?ctx, ?retained, ?unaliased⟩
+  refine ⟨hwf, ?shape, ?pdesc, ?push, ?exact, ?iso, ?refused, ?big, ?round, ?pushed, ?annos, ?hostile, ?probe1, ?probe2, ?reopen, ?race, ?ctx, ?retained, ?unaliased⟩
   case shape =>
     simp only [shapeOk, run, runSteps_length, runSteps_lists, List.length_map, beq_self_eq_true, Bool.true_and,
       Bool.and_true]
     by_cases hr : i.reopenOk = true <;> simp [hr]
+  case pdesc => simp only [run]; exact runSteps_descOk _ _ _ _
   case push =>
     have := stepPairs_run i.mode i.queries i.ops []
     simpa [run, stateOf] using this
@@ -725,7 +733,7 @@ example : Holds demo { run demo with reopened := (run demo).reopened.map (fun l 
 def goodSig0 : SigObs :=
   { id := 0, annos := [⟨"a", "1"⟩, ⟨createdKey, timeMark⟩], fetch := ⟨true, 1, "application/jose+json", true, true⟩ }
 def okList (sigs : List SigObs) : ListObs := { ok := true, sigs := sigs, bigRead := false }
-def stepOf (sigs : List SigObs) : StepObs := { ok := true, lists := [okList sigs] }
+def stepOf (sigs : List SigObs) : StepObs := { ok := true, descOk := true, lists := [okList sigs] }
 
 def demo2 : Input :=
   { mode := .digestOnly,
@@ -748,6 +756,9 @@ example : Holds demo2 (obs2 [stepOf [{ goodSig0 with fetch := ⟨true, 7, "appli
 
 /-- and an earlier fetch result that a later fetch overwrote (pooled buffer) -/
 example : Holds demo2 { obs2 [stepOf [goodSig0], stepOf [goodSig0]] with retained := false } = false := by decide
+
+/-- and a push that hands back a blob descriptor with another media type than was pushed -/
+example : Holds demo2 (obs2 [{ stepOf [goodSig0] with descOk := false }, stepOf [goodSig0]]) = false := by decide
 
 /-- and a listing that misses a pushed signature -/
 example : Holds demo2 (obs2 [stepOf [goodSig0], stepOf []]) = false := by decide
